@@ -13,7 +13,12 @@ RULE = ("exhaustive small universe: filters = atoms + lists of <=2 atoms + opera
         "against recorded atoms or an absent key, plus random deeper filters/values; stream `special floats` (implementation "
         "side only, deterministic): NaN / +-Infinity, bare and inside lists, as recorded value and as filter value (operator "
         "objects with all 7 operator texts, plain filters, lists of alternatives) against each other, ordinary numbers, big "
-        "ints, lists, strings, None and an absent key - the answer must be Python's own comparison; non-trivial = filter is not a "
+        "ints, lists, strings, None and an absent key - the answer must be Python's own comparison; stream `close numbers` (implementation side only, deterministic): pairs of "
+        "nearly equal numbers (0.1+0.2 vs 0.3, neighbouring doubles, timestamps a second apart, an int beyond 2**53 next to "
+        "the float it rounds to) and ints beyond the range of a double (2**1024, +-10**400) against floats / NaN / infinities, "
+        "either side, every operator, plain / alternative / inside lists: equality is exact and nothing overflows; EVERY case "
+        "is evaluated once more with warnings turned into errors (warnings.simplefilter('error') around the call): same "
+        "answer, never raises; non-trivial = filter is not a "
         "plain non-string atom; distinct = distinct (filter, recorded)")
 EXHAUSTIVE = {"quick": True, "thorough": True}
 ASSUMPTIONS = ["fnmatch on two strings is an oracle (Coq: section variable glob; runs: literals,?,* in Coq, "
@@ -80,6 +85,7 @@ def generate(rng, tier):
     # exact rationals; the predicate is Python's own comparison (spec_match).  NaN is a reachable metadata value: json and
     # jsonpickle write it as NaN and read it back.
     cases += special_float_cases()
+    cases += close_number_cases()
     n = 1500 if tier == "quick" else 20000
     for _ in range(n):
         f = rand_val(rng, 3)
@@ -117,6 +123,35 @@ def special_float_cases():
     return out
 
 
+def fr(text):
+    """a finite float given by its repr text (implementation side only)"""
+    return {"t": "float", "r": text}
+
+
+def close_number_cases():
+    """numbers that are NEARLY equal (arithmetic noise, neighbouring doubles, epoch timestamps a second apart, an int beyond
+    2**53 next to the float it rounds to: equality is exact, `=` and `<` / `>` exclude each other) and ints beyond the range of
+    a double (valid JSON; Python compares int with float exactly, nothing overflows) against floats / NaN / infinities, on
+    either side, under every operator, as plain filter and as an alternative.  Implementation side only; the predicate is
+    Python's own comparison."""
+    near = [(fr("0.30000000000000004"), fr("0.3")), (fr("1700000000.0"), fr("1700000001.25")),
+            (fr("1.0"), fr("1.0000000001")), (fr("1.0"), fr("1.0000000000000002")), (fr("1e+300"), fr("1.0000000000000002e+300")),
+            (fr("-2.5"), fr("-2.5000000000001")), (pv.i(10**16 + 1), fr("1e+16")), (pv.i(1), fr("1.0000000000000002")),
+            (pv.i(1700000000), fr("1700000000.5")), (fr("0.0"), fr("5e-324")), (fr("1.5"), fr("1.5")), (pv.i(3), fr("3.0"))]
+    huge = [pv.i(2**1024), pv.i(10**400), pv.i(-10**400), pv.i(2**1024 - 1)]
+    small = [fr("1.5"), fr("1.7976931348623157e+308"), fr("-1.7976931348623157e+308"), fr("0.0"), INF, NINF, NAN, pv.i(7),
+             pv.b(True), pv.lst([fr("1.5")])]
+    pairs = near + [(b_, a) for a, b_ in near] + [(a, b_) for a in huge for b_ in small] + [(b_, a) for a in huge for b_ in small]
+    out = []
+    for fv, rv in pairs:
+        for op in OPS:
+            out.append(dict(filter=opobj(op, fv), recorded=rv, nocoq=True))
+        out.append(dict(filter=fv, recorded=rv, nocoq=True))
+        out.append(dict(filter=pv.lst([pv.s("x"), fv]), recorded=rv, nocoq=True))
+        out.append(dict(filter=pv.lst([fv]), recorded=pv.lst([rv]), nocoq=True))          # inside lists: == of lists
+    return out
+
+
 def has_special_float(j):
     if j is None:
         return False
@@ -126,6 +161,30 @@ def has_special_float(j):
         return any(has_special_float(x) for x in j["v"])
     if j["t"] == "dict":
         return any(has_special_float(v) for _, v in j["v"])
+    return False
+
+
+def has_huge_int(j):
+    if j is None:
+        return False
+    if j["t"] == "int":
+        return abs(j["v"]) >= 2**1023
+    if j["t"] == "list":
+        return any(has_huge_int(x) for x in j["v"])
+    if j["t"] == "dict":
+        return any(has_huge_int(v) for _, v in j["v"])
+    return False
+
+
+def has_repr_float(j):
+    if j is None:
+        return False
+    if j["t"] == "float":
+        return "r" in j
+    if j["t"] == "list":
+        return any(has_repr_float(x) for x in j["v"])
+    if j["t"] == "dict":
+        return any(has_repr_float(v) for _, v in j["v"])
     return False
 
 
@@ -209,6 +268,16 @@ def direct(case, obs):
             fails.append(("non-bool", obs["err"]))
     if obs["again"] != obs["value"]:
         fails.append(("nondeterministic", "two evaluations differ"))
+    if obs.get("strict") is not None and obs["strict"] != obs["meta"]:
+        # the interpreter's warnings configuration is not an input of matching: with warnings turned into errors
+        # (python -W error / PYTHONWARNINGS=error / pytest filterwarnings=error) matching still never raises
+        if obs["strict"] >= 2:
+            fails.append(("raises-under-warnings-as-errors", "with warnings as errors (warnings.simplefilter('error')) matching "
+                          "raised %s for filter=%s recorded=%s; it answered %s under the default warnings filter" %
+                          (obs.get("strict_err"), case["filter"], case["recorded"], obs["meta"])))
+        else:
+            fails.append(("answer-depends-on-warnings-filter", "answered %s with warnings as errors, %s with the default "
+                          "filter; filter=%s recorded=%s" % (obs["strict"], obs["meta"], case["filter"], case["recorded"])))
     if obs.get("s3", 9) != 9 and obs["s3"] != want:
         fails.append(("s3-content-filter-differs", "the S3 content filter answered %s for filter=%s stored metadata value=%s, the "
                       "documented meaning says %s" % (obs["s3"], case["filter"], case["recorded"], want)))
@@ -226,6 +295,11 @@ def features(case):
     for side, j in (("filter", f), ("recorded", case["recorded"])):
         if has_special_float(j):
             fs.add(side + ":holds-nan-or-infinity")
+        if has_huge_int(j):
+            fs.add(side + ":holds-int-beyond-double-range")
+    if case.get("nocoq") and not has_special_float(f) and not has_special_float(case["recorded"]) and \
+            any(has_repr_float(j) for j in (f, case["recorded"])):
+        fs.add("nearly-equal-or-equal-finite-numbers")
     return fs
 
 
@@ -235,7 +309,7 @@ def nontrivial(case):
 
 MANIFEST = dict(
     design_ref='6/C14',
-    text='Coq theorems for every filter and every recorded value (match_value = Ans (match_spec), hence never raises; lifted to the per-key conjunction; legacy TypeError witnesses refuted) over a hand-written model of _match_metadata_value / _operator_filter / match_against_recorded_metadata, for every fnmatch oracle; model tied to /repo on every run by an exhaustive small universe (~9k filter x value pairs) + random deeper pairs evaluated by the real matcher and by the model, + ~1.5k pairs with NaN / infinities on either side (implementation side only: the answer must equal the comparison Python itself makes); direct predicate (never raises, equals the documented meaning, deterministic) on the implementation.',
+    text='Coq theorems for every filter and every recorded value (match_value = Ans (match_spec), hence never raises; lifted to the per-key conjunction; legacy TypeError witnesses refuted) over a hand-written model of _match_metadata_value / _operator_filter / match_against_recorded_metadata, for every fnmatch oracle; model tied to /repo on every run by an exhaustive small universe (~9k filter x value pairs) + random deeper pairs evaluated by the real matcher and by the model, + ~1.5k pairs with NaN / infinities on either side (implementation side only: the answer must equal the comparison Python itself makes); + ~1k pairs of nearly equal numbers and ints beyond the range of a double (exact equality, no overflow); every case also evaluated with warnings turned into errors (same answer, never raises); direct predicate (never raises, equals the documented meaning, deterministic) on the implementation.',
     note='Trusted: Coq kernel + vm_compute; hand-written model of Python ==/</<= on the metadata value domain (exact rationals for floats); fnmatch is an oracle (section variable); correspondence harness.',
     technique='Coq proof (structural induction over filters) + exhaustive small-universe correspondence by vm_compute',
 )
